@@ -40,6 +40,8 @@
 //!   * excess columns for DeserializeRow;
 //!   * ordered UDT whose ignored suffix contains the name of a declared (allow_missing) field;
 //!   * null delivered to a non-Option list field (the driver reads null collections as empty).
+//!   * an `Option` field holding `None` bound to a column of a different type (null is written without a type check);
+//!   * a database field list with a repeated name.
 //!
 //! Cell encoding (CQL v4 spec section 6): int/bigint big-endian two's complement, text UTF-8, boolean one byte,
 //! double IEEE-754 big-endian, list<int> = [i32 n] then n x [i32 len][bytes]. A UDT value / a row is a sequence
@@ -284,6 +286,8 @@ pub struct Binding {
     pub leaf_to_db: Vec<Option<usize>>,
     /// leaves bound to a database field of a different type
     pub mismatched: Vec<usize>,
+    /// the database list repeats a name (verdict stays Unspecified whatever else holds)
+    pub repeated: bool,
 }
 
 fn worst(cur: &mut (Verdict, &'static str), v: Verdict, why: &'static str) {
@@ -396,12 +400,18 @@ pub fn bind_names(m: &Model, db: &[DbField], target: Target, dir: Dir) -> Bindin
             }
         }
     }
+    // a repeated database name: nothing is documented (by-name deserializers report a duplicate, by-name
+    // serializers write the field twice) - only "no panic" is demanded
+    let repeated = (0..db.len()).any(|i| (0..i).any(|j| db[i].name == db[j].name));
+    if repeated {
+        res = (Verdict::Unspecified, "repeated-db-name-undocumented");
+    }
     let mismatched: Vec<usize> = leaf_to_db
         .iter()
         .enumerate()
         .filter_map(|(i, j)| j.filter(|j| db[*j].kind != m.leaves[i].kind).map(|_| i))
         .collect();
-    Binding { verdict: res.0, reason: res.1, leaf_to_db, mismatched }
+    Binding { verdict: res.0, reason: res.1, leaf_to_db, mismatched, repeated }
 }
 
 /// Names/order/count verdict combined with the static type check of every bound pair
@@ -409,7 +419,7 @@ pub fn bind_names(m: &Model, db: &[DbField], target: Target, dir: Dir) -> Bindin
 /// of a serialization in which every mismatched field carries a non-null value.
 pub fn bind(m: &Model, db: &[DbField], target: Target, dir: Dir) -> Binding {
     let mut b = bind_names(m, db, target, dir);
-    if !b.mismatched.is_empty() {
+    if !b.mismatched.is_empty() && !b.repeated {
         let mut res = (b.verdict, b.reason);
         worst(&mut res, Verdict::MustReject, "type-mismatch");
         b.verdict = res.0;
@@ -445,8 +455,10 @@ pub fn expect_ser(m: &Model, vals: &[Val], db: &[DbField], target: Target) -> Se
                 worst(&mut res, Verdict::MustReject, "type-mismatch");
             }
         }
-        b.verdict = res.0;
-        b.reason = res.1;
+        if !b.repeated {
+            b.verdict = res.0;
+            b.reason = res.1;
+        }
     }
     let mut cells: Vec<Option<Vec<u8>>> = vec![None; db.len()];
     let mut min_cells = 0usize;
@@ -521,6 +533,9 @@ pub fn expect_de(m: &Model, db: &[DbField], cells: &[Cell], target: Target) -> D
             },
         };
         vals.push(v);
+    }
+    if b.repeated {
+        res = (b.verdict, b.reason);
     }
     DeExpect { verdict: res.0, reason: res.1, vals }
 }
